@@ -1,6 +1,7 @@
 package vh
 
 import (
+	"bytes"
 	"encoding/json"
 	"flag"
 	"fmt"
@@ -234,6 +235,24 @@ func checkSpecViaRun(c *SpecCase, sub bool) *Violation {
 	return nil
 }
 
+// enumAlphabet is the character-class alphabet of the exhaustive part (see TestC08Exhaustive).
+var enumAlphabet = []byte{' ', '\t', '[', ']', '(', ')', '|', '.', '-', '=', '<', '>', 'a', 'b', 'X', 'Y', '1', '_', 0xc3}
+
+// inEnumeratedSpace: the string is short enough and over the alphabet of the exhaustive enumeration, which counts its
+// non-trivial strings by construction; a random case falling into that space is not counted a second time (whatever
+// its naming: conservative).
+func inEnumeratedSpace(s string) bool {
+	if len(s) > EnvInt("VERIF_C08_L", 5) {
+		return false
+	}
+	for i := 0; i < len(s); i++ {
+		if bytes.IndexByte(enumAlphabet, s[i]) < 0 {
+			return false
+		}
+	}
+	return true
+}
+
 // CheckC08 evaluates one spec case.
 func CheckC08(c *SpecCase, st *Stats) *Violation {
 	st.Eval()
@@ -253,7 +272,7 @@ func CheckC08(c *SpecCase, st *Stats) *Violation {
 	} else {
 		st.Class("verdict:rejected")
 	}
-	if (res.Accepted && res.NTokens >= 3) || (!res.Accepted && res.ErrPos > 0) {
+	if ((res.Accepted && res.NTokens >= 3) || (!res.Accepted && res.ErrPos > 0)) && !inEnumeratedSpace(s) {
 		st.NonTrivial(c.Quoted+"\x00"+strings.Join(c.Opts, ",")+"\x00"+strings.Join(c.Args, ","), func() interface{} {
 			return map[string]interface{}{"spec": c.Quoted, "opts": c.Opts, "args": c.Args, "compiled": res.Accepted}
 		})
